@@ -6,11 +6,14 @@ package main
 
 import (
 	"fmt"
+	"os"
 	"go/token"
 	"go/types"
 
 	"golang.org/x/tools/go/ssa"
 )
+
+var traceSched = os.Getenv("VERIF_TRACE") != ""
 
 type Goroutine struct {
 	id      int
@@ -108,6 +111,9 @@ func (ex *Exec) handoffFromDying(g *Goroutine) {
 		return
 	}
 	next := ex.pickNext(nil)
+	for next == nil && ex.fireTimerSafe() {
+		next = ex.pickNext(nil)
+	}
 	if next == nil {
 		// everyone else is blocked (main included): deadlock
 		ex.endMsg = "deadlock: all goroutines blocked: " + ex.blockedDesc()
@@ -155,6 +161,9 @@ func (ex *Exec) block(ready func() bool, desc string) {
 		g.waiting = ready
 		g.desc = desc
 		next := ex.pickNext(g)
+		if traceSched {
+			fmt.Fprintf(os.Stderr, "block g%d (%s): next=%v timers=%d\n", g.id, desc, next != nil, len(ex.timers))
+		}
 		if next == nil {
 			if ex.fireTimer() {
 				continue
@@ -463,10 +472,28 @@ func (ex *Exec) fireTimer() bool {
 		}
 	}
 	t := pend[k]
+	if traceSched {
+		fmt.Fprintf(os.Stderr, "fire timer chan %d deadline %v\n", t.id, toString(t.deadline))
+	}
 	t.fired = true
 	ex.clockAtLeast(t.deadline)
 	t.buf = append(t.buf, ex.timeStruct(ex.clock))
 	return true
+}
+
+// fireTimerSafe is fireTimer for contexts that must not unwind (a dying goroutine's
+// hand-off): a path end raised while firing is recorded and reported as "no timer".
+func (ex *Exec) fireTimerSafe() (fired bool) {
+	defer func() {
+		if r := recover(); r != nil {
+			if pe, ok := r.(pathEnd); ok && !ex.aborting {
+				ex.endMsg = pe.kind + ": " + pe.msg
+				ex.aborting = true
+			}
+			fired = false
+		}
+	}()
+	return ex.fireTimer()
 }
 
 func (ex *Exec) vassumeTerm(c *Term) {
